@@ -15,6 +15,7 @@ mod c06;
 mod c07;
 mod c08;
 mod c09;
+mod c10;
 mod c16;
 mod c18;
 pub mod expand;
@@ -60,6 +61,13 @@ impl Tracer {
         if self.cur.is_none() || self.cur_events >= self.shard_events || self.cur_bytes >= self.shard_bytes {
             self.roll();
         }
+        if ev["op"] == "div" {
+            // tell the specification which operand is the primitive (a form name is only a label to it)
+            let (lk, _) = crate::forms::form_kinds(ev["form"].as_str().unwrap());
+            if !crate::forms::is_dec_kind(&lk) {
+                ev.as_object_mut().unwrap().insert("lhsprim".into(), Value::Bool(true));
+            }
+        }
         let r = if ev["op"] == "reset" || ev["op"] == "note" { Value::Null } else { crate::exec::exec(&ev) };
         if !r.is_null() {
             ev.as_object_mut().unwrap().insert("r".into(), r.clone());
@@ -98,7 +106,7 @@ impl Tracer {
 pub fn drive(prop: &str, tier: &str, seed: u64, outdir: &str) -> u64 {
     let thorough = tier == "thorough";
     let mut rng = StdRng::seed_from_u64(seed ^ 0x5eed_0000);
-    let mut tr = Tracer::new(outdir, &format!("drv-{}", prop), 8000);
+    let mut tr = Tracer::new(outdir, &format!("drv-{}", prop), 3000);
     match prop {
         "C01" => c01::drive(&mut tr, &mut rng, thorough),
         "C02" => c02::drive(&mut tr, &mut rng, thorough),
@@ -109,6 +117,9 @@ pub fn drive(prop: &str, tier: &str, seed: u64, outdir: &str) -> u64 {
         "C07" => c07::drive(&mut tr, &mut rng, thorough),
         "C08" => c08::drive(&mut tr, &mut rng, thorough),
         "C09" => c09::drive(&mut tr, &mut rng, thorough),
+        "C10" => c10::drive_sqrt(&mut tr, &mut rng, thorough),
+        "C11" => c10::drive_cbrt(&mut tr, &mut rng, thorough),
+        "C12" => c10::drive_inverse(&mut tr, &mut rng, thorough),
         "C16" => c16::drive(&mut tr, &mut rng, thorough),
         "C18" => c18::drive(&mut tr, &mut rng, thorough),
         _ => panic!("no driver for {}", prop),
